@@ -1446,14 +1446,18 @@ func (dht *FullRT) findProvidersAsyncRoutine(ctx context.Context, key multihash.
 	queryctx, cancelquery := context.WithCancel(ctx)
 	defer cancelquery()
 
-	fn := func(ctx context.Context, p peer.ID) error {
+	// opCtx is execOnMany's per-operation context, which it cancels as soon as
+	// it considers the operation good enough. It bounds the RPC only: providers
+	// of an answer that was already received are handed to the caller under the
+	// routine's own ctx, so that early exit cannot drop them.
+	fn := func(opCtx context.Context, p peer.ID) error {
 		// For DHT query command
-		routing.PublishQueryEvent(ctx, &routing.QueryEvent{
+		routing.PublishQueryEvent(opCtx, &routing.QueryEvent{
 			Type: routing.SendingQuery,
 			ID:   p,
 		})
 
-		provs, closest, err := dht.protoMessenger.GetProviders(ctx, p, key)
+		provs, closest, err := dht.protoMessenger.GetProviders(opCtx, p, key)
 		if err != nil {
 			return err
 		}
@@ -1493,7 +1497,7 @@ func (dht *FullRT) findProvidersAsyncRoutine(ctx context.Context, key multihash.
 		// Give closer peers back to the query to be queried
 		logger.Debugf("got closer peers: %d %s", len(closest), closest)
 
-		routing.PublishQueryEvent(ctx, &routing.QueryEvent{
+		routing.PublishQueryEvent(opCtx, &routing.QueryEvent{
 			Type:      routing.PeerResponse,
 			ID:        p,
 			Responses: closest,
